@@ -257,3 +257,37 @@ Example C20_ex_MapToJson :
   let MapJson := fun (_ : value) (safe : bool) => Ok (if safe then s"escaped" else s"raw") in
   MapJson ex20 true <> MapJson ex20 false /\ j2x_MapToJson MapJson ex20 true = Ok (s"escaped").
 Proof. cbn. split; [discriminate|reflexivity]. Qed.
+
+(* ---- tie to the CURRENT sources of x2j-wrapper's own tree walkers (x2j.go: hasKey, ValuesForKey; x2j_findPath.go:
+   hasKeyPath, PathsForKey, PathForKeyShortest; x2j_valuesFrom.go: valuesFromKeyPath, ValuesFromKeyPath; x2j_valuesAt.go:
+   ValuesAtKeyPath): go2v re-translates the eight functions on every run (Gen/PureX2j_gen.v, prefix xfn_) and
+   GenProofs/PureX1.v (helper H8) proves them - with the translated callees plugged in - equal to the models of
+   Model/X2jWrap.v the agreement theorems above are stated with (PathsForKey: a duplicate-free permutation, Go ranges
+   over the basket map in hash order). *)
+From Mxj Require Import Gen.Setters_gen Gen.PureSupport Gen.PureX2j_gen GenProofs.PureX1.
+
+Theorem C20_xw_values_for_key_code_is_model : forall st m key,
+  xfn_ValuesForKey (run_xhasKey st) st m key = Ret (xw_values_for_key (VMap m) key).
+Proof. exact xw_values_for_key_code_is_model. Qed.
+Print Assumptions C20_xw_values_for_key_code_is_model.
+
+Theorem C20_xw_values_from_code_is_model : forall st m path getAttrs,
+  xfn_ValuesFromKeyPath (run_xvaluesFromKeyPath st) st m path getAttrs = Ret (xw_values_from (VMap m) path (attrs_flag getAttrs)).
+Proof. exact xw_values_from_code_is_model. Qed.
+Print Assumptions C20_xw_values_from_code_is_model.
+
+Theorem C20_xw_values_at_code_is_model : forall st m path getAttrs,
+  xfn_ValuesAtKeyPath (run_xvaluesFromKeyPath st) st m path getAttrs = Ret (xw_values_at (VMap m) path (attrs_flag getAttrs)).
+Proof. exact xw_values_at_code_is_model. Qed.
+Print Assumptions C20_xw_values_at_code_is_model.
+
+Theorem C20_xw_paths_for_key_code_is_model : forall st m key,
+  exists ps, xfn_PathsForKey (run_xhasKeyPath st) st m key = Ret ps /\ NoDup ps /\ Permutation ps (xw_paths_for_key (VMap m) key).
+Proof. exact xw_paths_for_key_code_is_model. Qed.
+Print Assumptions C20_xw_paths_for_key_code_is_model.
+
+Theorem C20_xw_path_for_key_shortest_code_is_model : forall st m key,
+  exists ps, xfn_PathsForKey (run_xhasKeyPath st) st m key = Ret ps /\ Permutation ps (xw_paths_for_key (VMap m) key) /\
+             xfn_PathForKeyShortest (run_xPathsForKey st) st m key = Ret (xw_shortest_of ps).
+Proof. exact xw_path_for_key_shortest_code_is_model. Qed.
+Print Assumptions C20_xw_path_for_key_shortest_code_is_model.
